@@ -54,6 +54,11 @@ class SimReactor(task.Clock):
 
     escaped = None
 
+    def callLater(self, delay, callable, *args, **kw):
+        # as ReactorBase.callLater
+        assert delay >= 0, "%s is not greater than or equal to 0 seconds" % (delay,)
+        return task.Clock.callLater(self, delay, callable, *args, **kw)
+
     def advance(self, amount):
         """As task.Clock.advance, but an exception raised by a delayed call is caught and
         recorded (the real reactor logs it and carries on)."""
